@@ -13,12 +13,24 @@ CLAIMS = {
          "Trusted: Coq kernel; Gen/Tables.v reflection printer; Tag::from_wire being the inverse of wire_value is checked by a sweep over 32-bit words (2^24 per quick run, all 2^32 in thorough), not proved; hand-written model tied by correspondence."),
  "C06": ("Theorems for every byte string of any length: from_bytes never reaches a panic site of the model; values of an accepted message are exactly the bytes after the header; to_string returns normally for every message with recursion bounded by MAX_DISPLAY_DEPTH. Tied by differential execution including display under catch_unwind in a 2 MiB-stack thread.",
          "Trusted: Coq kernel; the model's panic sites are those of message.rs (hand-mapped; a removed guard shows up as impl-panics-where-model-errs); a real stack overflow can only be observed (process crash is reported), not proved absent."),
+ "C02": ("PARTIAL (fault *rate* measured, not proved). Theorems: with fault injection off the model of server.rs/responder.rs emits exactly the functionally specified replies (C09_drain), and every specified reply, for any batch of up to 2^32 requests and any position, is accepted by an independent verifier written from the protocol texts (literal context strings, 64-byte nodes over the nonce for classic, first-32-bytes nodes over the whole request for IETF), relative to SigCorrect; for every PRNG outcome a fault-injected reply is unchanged or rejected outright. Tied by in-process real Server vs extracted model on the same datagram rounds; every real reply goes through the extracted Coq verifier with signature queries answered by one-shot ed25519-dalek, and through a Python Merkle recomputation; failing share at p = 1/10/50 % measured over >= 2000 replies each.",
+         "Trusted: Coq kernel; SigCorrect/PkLen/SigLen/HashLen hypotheses on the primitives; the PRNG (rate is a measurement); UDP loopback preserving send order; harness and Python glue."),
+ "C07": ("Theorems for EVERY datagram: the classifier model accepts exactly the protocol spec's well-formed requests (1024..1500 bytes, protocol nonce length, exact IETF frame length, supported version among the first four, SRV absent or this server's) with the same nonce/protocol and never panics; rejected datagrams contribute nothing; with at most 64 requests per batch every reply is <= 1024 bytes <= its request. Tied by classification (impl / model / Coq spec) over length-, nonce-length-, frame-length-targeted and mutated datagrams and by the in-process server incl. full batches of maximum depth.",
+         "Trusted: Coq kernel; private constants of request.rs (nonce lengths, ITERATION_LIMIT) are hand-modelled and pinned by boundary inputs; batch_size <= 64 is is_valid_config's range."),
+ "C08": ("Theorems: for every datagram queue, log level, fault percentage and PRNG outcome the model of process_events returns normally (every panic site of the modelled code, including the debug! argument nonce[0..4], is unreachable; explicit fuel suffices, so the drain terminates) and re-establishes the state invariant, so the next call emits exactly the specified replies. Tied by the in-process server under catch_unwind at all six log levels with a capturing logger, fault 0 and 50, junk interleaved with valid requests; log-record counts compared with the model.",
+         "Trusted: Coq kernel; the model's panic sites are those of the Rust (hand-mapped); mio/OS errors other than WouldBlock, and arrivals during processing, are outside the model (queue is a finite list)."),
+ "C09": ("Theorems: for any queue and any state left by earlier traffic the drain emits, per batch of batch_size, exactly one datagram per spec-accepted request — IETF replies in arrival order then classic ones — each to its own source with its own nonce, index and inclusion path; rejected datagrams cause none. Tied by in-process real Server vs extracted model over interleavings from 1..20 sockets, identical nonces from different sockets, bursts smaller/equal/larger than batch_size; per-socket reply sequences, INDX rank, PATH/ROOT recomputation checked on the real replies.",
+         "Trusted: Coq kernel; source address = socket identity; loopback send order = arrival order."),
+ "C12": ("Theorems on the classifier model: answered as IETF only if VER holds draft-13 within its first four entries, always if it does and the other conditions hold, SRV only when it is this server's, never as classic when framed; the signed SREP states draft-13 and the supported versions. Tied by the exhaustive VER-list matrix (length <= 5 quick / 6 thorough over 4 version numbers x SRV absent/right/wrong), SRV single-bit corruptions and wrong lengths, through impl / model / Coq spec, and sampled through the in-process server.",
+         "Trusted: Coq kernel; as C07."),
  "C10": ("Theorems: SRV value and public key are functions of the seed alone; the delegation window contains every signable midpoint; the code's context strings equal the protocol texts' (re-proved against the regenerated table) and the two delegation contexts yield different signed strings. Certificates verifying under the long-term key for every responder and signer history is part of C02_honest_verifies + C13. Tied by LongTermKey::new vs one-shot dalek vs a pure-Python RFC 8032 transcription and hashlib, certificate sequences from one LongTermKey object, repeated in-process server starts.",
          "Trusted: Coq kernel; Ed25519/SHA-512 abstract (the RFC 8032 equality is a correspondence observation, not a theorem); 'never verifies under the other context' needs a signature-binding idealisation and is observed, not proved. Restarts of the real multi-worker binary are covered by C15/C18 runs."),
  "C11": ("Theorems for every clock reading (secs < 2^44, nanos < 10^9): classic MIDP = floor(ns/1000) and RADI = 5 000 000; IETF MIDP = secs and RADI = 5; true time in [MIDP, MIDP+1) units, hence within MIDP +/- RADI. Tied by make_srep at ~1000 clock values on both sides plus independent arithmetic, and by replies of a running in-process server bracketed by harness clock readings.",
          "Trusted: Coq kernel; SystemTime::now() is the clock (observed by bracketing); u64 overflow of secs*10^6 beyond year 559 000 is excluded by the stated guard."),
  "C14": ("PARTIAL. Theorems generic in AEAD and KMS provider: round trip for plaintexts >= 32 bytes and wrapped keys < 2^16 bytes; no panic for any blob and any provider answer; every accepted blob decomposes into validated lengths, a provider-unwrapped 32-byte key, a 12-byte nonce and an AEAD-opened ciphertext (nothing bypasses them); parse injectivity; data flow of the blob. Tamper rejection and non-leakage are cryptographic and are observed against real AES-256-GCM: every single-bit/byte modification at every position, every truncation, extensions, provider faults; substring scan for seed and DEK.",
          "Trusted: Coq kernel; AES-256-GCM (ring) and the provider are abstract; tamper *rejection* and secrecy are properties of the primitives, measured not proved; a provider that itself panics is outside the claim (refutation theorem included)."),
+ "C16": ("Theorems for every written integer z, every integer-valued key and both sources: a value the server runs with equals the written one and is in range; out-of-range values of the four range-documented keys are refused, never replaced; in-range values are accepted; file and environment agree (status_interval within 16 bits). Tied by make_config + is_valid_config in a child process per (source, key, value) over a boundary grid incl. the type-width wrap points, plus missing/unknown keys and malformed seeds.",
+         "Trusted: Coq kernel; the model enters at the integer (YAML / decimal lexing, string-valued settings, directory checks are correspondence-only)."),
  "C13": ("Theorems for every seed and every operation sequence on one signer object (any chunking, any number of messages): each signature is the one-shot signature of its own message's concatenated chunks, nothing carries over a sign(); the verifier's verdict is the direct verification and it panics exactly on a non-point key / non-64-byte signature. Tied to sign.rs by running operation sequences on the real MsgSigner/MsgVerifier; the byte strings the model says are signed are signed by one-shot ed25519-dalek and by a pure-Python RFC 8032 transcription and compared.",
          "Trusted: Coq kernel; Ed25519 itself is abstract in the theorems (any one-shot primitive); that dalek's one-shot API is RFC 8032 is cross-checked against the Python transcription on a sample, not proved."),
  "C17": ("Theorems for every event history, limit, split across workers and snapshot points: conservation (each event in its own counter or in the overflow count, exactly once), boundedness, per-client = aggregated totals without overflow, reporter merge preserves per-address sums. Tied to stats/*.rs by bounded-exhaustive and random operation sequences on the real recorders (hook: PerClientStats::with_limit, Reporter::merged_client_stats) and by in-process server traffic read back through Server::stats_recorder.",
